@@ -107,6 +107,13 @@ pub fn run(run: &Run) {
             false
         }
     }));
+    battery(run, "misordered_marks", &misordered_mark_strings(), &|s, l| profs.iter().all(|p| match check(run, *p, s, l) {
+        Ok(()) => true,
+        Err(v) => {
+            run.violate(v);
+            false
+        }
+    }));
     collisions(run, "fingerprint_collisions", &|s, l| profs.iter().all(|p| match check(run, *p, s, l) {
         Ok(()) => true,
         Err(v) => {
